@@ -37,16 +37,19 @@ VARIABLES kind,      \* Node -> element kinds \cup {"Sig", "free"}
           content,   \* Node -> {"genuine", "forged", "-"}   own content
           kids,      \* Node -> Seq(Node)
           root,
-          sorig      \* Node -> {"A", "R", "-"}      which genuine signature a Sig node is a copy of
+          sorig      \* Node -> {"A", "R", "X", "-"}  which genuine signature a Sig node is a copy of ("X": attacker-made)
 
 (***************************************************************************)
 (* The genuine signatures                                                  *)
 (***************************************************************************)
-SRef(o) == IF o = "A" THEN "a" ELSE "r"                  \* Reference/@URI inside the (immutable) SignedInfo
+\* Reference/@URI inside the (immutable) SignedInfo.  Origin "X" is a signature the attacker made himself:
+\* it references the forged element "x" and never verifies under the issuer's key
+SRef(o) == CASE o = "A" -> "a" [] o = "R" -> "r" [] OTHER -> "x"
 SigT(o) == <<"Sig", o, <<>>>>                            \* a signature as it contributes to an enclosing digest
 AsrtPlain == <<"Asrt", "a", "genuine", <<>>>>
 AsrtSigned == <<"Asrt", "a", "genuine", <<SigT("A")>>>>
 Dig(o) == IF o = "A" THEN AsrtPlain
+          ELSE IF o = "X" THEN <<"never">>
           ELSE <<"Resp", "r", "genuine", <<IF Level = "both" THEN AsrtSigned ELSE AsrtPlain>>>>
 
 (***************************************************************************)
@@ -86,6 +89,7 @@ ToolOK(k, i) ==
     /\ LET st == IF i = NoId THEN root ELSE CHOOSE n \in ById(k, i) : TRUE
            s  == FirstSig(st)
        IN /\ s # 0
+          /\ sorig[s] # "X"                                        \* only the key given on the command line is trusted
           /\ ById(k, SRef(sorig[s])) # {}                                              \* T4: reference resolves
           /\ LET t == CHOOSE n \in ById(k, SRef(sorig[s])) : TRUE
              IN /\ t \notin Sub(s)             \* enveloped transform: nothing is left of a target inside the signature
